@@ -92,7 +92,7 @@ pub fn check(bytes: &[u8], _ctx: &Ctx) -> Verdict {
                 let tot: f64 = v.iter().zip(keep.iter()).filter(|(_, k)| **k).map(|(x, _)| *x).sum();
                 for ((x, k), g) in v.iter().zip(keep.iter()).zip(got.iter()) {
                     let want = if *k { *x / tot } else { 0.0 };
-                    if !ulp_close(want, *g, 4.0) {
+                    if !ulp_close(want, *g, 4.0 + v.len() as f64) {
                         return Verdict::fail(
                             "C18/support-or-rescaling",
                             format!(
@@ -188,6 +188,7 @@ pub fn prop() -> Prop {
         assumptions: &["idempotence is an exact-arithmetic claim; not asserted within 1e-9 relative of a probability"],
         post: None,
         watchdog_s: 60,
+        hang_is_violation: false,
         shrink_iters: 3000,
     }
 }
